@@ -226,10 +226,19 @@ def main():
             continue
         if a.prop and a.prop not in sp.get("prop", []):
             continue
+        import signal
+
+        def _alarm(signum, frame):
+            raise TimeoutError("mirsym wall-clock guard")
+        signal.signal(signal.SIGALRM, _alarm)
+        signal.alarm(int(sp.get("wall_s", 900 if a.tier == "quick" else 3600)))
         try:
             r = check_spec(name, sp, fns, consts, a.timeout_ms, a.cfg)
+        except TimeoutError:
+            r = dict(spec=name, status="inconclusive", reason="wall-clock guard: interpretation/solving did not finish")
         except Exception as e:
             r = dict(spec=name, status="error", reason="%s\n%s" % (e, traceback.format_exc()[-1500:]))
+        signal.alarm(0)
         out["results"].append(r)
         print("%-28s %-14s obligations=%s proved=%s atoms=%s quot=%s solver=%ss wall=%ss %s" % (
             name, r["status"], r.get("n_obligations"), r.get("n_proved"), r.get("atoms"), r.get("quot_atoms"), r.get("solver_s"), r.get("wall_s"),
